@@ -35,7 +35,7 @@ func typeSwitchArms(fi *FuncInfo, subj string) (arms []string, hasDefault bool, 
 			}
 		}
 		id, isId := x.(*ast.Ident)
-		if !isId || id.Name != subj {
+		if !isId || (subj != "" && id.Name != subj) {
 			return true
 		}
 		ok = true
@@ -84,6 +84,50 @@ func ruleSIB1(w *World, r *Report) {
 	for _, t := range aa {
 		ok := have[t] || (rdef && t == "float64") // numeric removal lives in the default arm (toFloat64Ok)
 		r.Cond(ok, "SIB-1", "removeOldIndexEntries:has:"+t, w.Pos(rpos), "removal arm present", "values of type "+t+" are indexed but never removed from the secondary index when overwritten: stale ids keep matching")
+	}
+	// deletion: DeleteMetadata must take the node out of every posting list it can be in. Visiting every list of the
+	// inverted index does that for any value type; going straight to the lists named by the node's current values
+	// does it only with a removal arm per indexed type (a list value sits in one posting list per element)
+	if dm := w.Func("pkg/core", "DB.DeleteMetadata"); dm == nil {
+		r.Und("SIB-1", "anchor:DB.DeleteMetadata", "", "anchor lost")
+	} else {
+		dfn := w.SSAFunc(dm.Obj)
+		removes := findInstrs(dfn, func(in ssa.Instruction) bool { return isMethodCall(in, "RoaringBitmap/roaring", "Bitmap.Remove") })
+		directed := 0
+		var dpos token.Pos
+		for _, rm := range removes {
+			recv := rm.(*ssa.Call).Call.Args[0]
+			exhaustive := false
+			for _, leaf := range valueRoots(recv) {
+				if ex, ok := leaf.(*ssa.Extract); ok {
+					if _, isNext := ex.Tuple.(*ssa.Next); isNext {
+						exhaustive = true
+					}
+				}
+			}
+			if !exhaustive {
+				directed++
+				dpos = rm.Pos()
+			}
+		}
+		if len(removes) == 0 {
+			r.Bad("SIB-1", "DeleteMetadata:leaves-every-posting-list", w.Pos(dm.Decl.Pos()), "DeleteMetadata no longer removes the node from the inverted index: a deleted vector keeps matching equality filters")
+		} else if directed == 0 {
+			r.Ok("SIB-1", "DeleteMetadata:leaves-every-posting-list", w.Pos(dm.Decl.Pos()), "every posting list of the index is visited (independent of the value's type)")
+		} else {
+			da, ddef, _, okd := typeSwitchArms(dm, "")
+			have := map[string]bool{}
+			for _, t := range da {
+				have[t] = true
+			}
+			missing := []string{}
+			for _, t := range aa {
+				if !(okd && (have[t] || (ddef && t == "float64"))) {
+					missing = append(missing, t)
+				}
+			}
+			r.Cond(len(missing) == 0, "SIB-1", "DeleteMetadata:leaves-every-posting-list", w.Pos(dpos), "value-directed removal has an arm for every indexed type", "DeleteMetadata goes straight to the posting list named by the node's current value but has no removal arm for {"+strings.Join(missing, ", ")+"}: a value of that type (a list sits in one posting list per element) leaves the deleted node's id behind, and the deleted — or re-added — vector keeps matching filters on values it no longer has")
+		}
 	}
 	// text analysis: both indexers choose the analyser by the same language switch
 	langs := func(fi *FuncInfo) string {
@@ -205,6 +249,41 @@ func ruleGRDlive(w *World, r *Report) {
 	}
 	if n == 0 {
 		r.Bad("GRD-live", "evaluateBooleanFilter:complement-base", w.Pos(ev.Decl.Pos()), "the != arm no longer complements (no AndNot): ids lacking the field are not matched")
+	}
+	// the DB-side wrapper hands out exactly the index's live-id set (or an empty set when the index has no nodes to
+	// speak of): ids must come from the vector index itself — a vector stored without metadata is live too, so no
+	// metadata-side map can stand in for it
+	if locked != nil {
+		if lfn := w.SSAFunc(locked); lfn != nil {
+			k := 0
+			for _, b := range lfn.Blocks {
+				rt, ok := b.Instrs[len(b.Instrs)-1].(*ssa.Return)
+				if !ok || len(rt.Results) == 0 {
+					continue
+				}
+				for _, leaf := range valueRoots(retVal(rt, 0)) {
+					if isNilConst(leaf) {
+						continue
+					}
+					k++
+					okSrc := derivesFromCallAny(leaf, valid.Obj, 0)
+					if !okSrc {
+						// an empty set: roaring.New() that nothing is added to
+						if c, isCall := leaf.(*ssa.Call); isCall && commonIs(&c.Call, "github.com/RoaringBitmap/roaring", "New") {
+							okSrc = true
+							for _, ref := range *c.Referrers() {
+								if rc, isC := ref.(*ssa.Call); isC && rc.Call.Value != nil {
+									if o := calleeObj(&rc.Call); o != nil && len(rc.Call.Args) > 0 && rc.Call.Args[0] == ssa.Value(c) && o.Name() != "IsEmpty" {
+										okSrc = false // something is put into it
+									}
+								}
+							}
+						}
+					}
+					r.Cond(okSrc, "GRD-live", fmt.Sprintf("getAllValidNodeIDsLocked:returns-index-live-set#%d", k), w.Pos(rt.Pos()), "the set handed to the != complement is the vector index's own live-id set (or empty)", "getAllValidNodeIDsLocked builds the complement base from something other than the vector index's live-id set: vectors that are live but absent from that source (for example stored without metadata) no longer satisfy `field != value`, and ids present there but deleted in the index do")
+				}
+			}
+		}
 	}
 	// GetAllValidNodeIDs: every Add to the result is guarded by the Deleted test
 	vfn := w.SSAFunc(valid.Obj)
